@@ -2,8 +2,6 @@
 Require Import Base.Bytes.
 Open Scope N_scope.
 
-Definition nthb (d : bytes) (i : nat) : byte := nth i d 0.
-
 (* sum of every byte after the preamble *)
 Definition sum_after_preamble (m : bytes) : N := fold_right N.add 0 (tl m).
 
